@@ -9,6 +9,8 @@ import SnapraidVerif.Array.ScrubPlan
 import SnapraidVerif.Parity.Split
 import SnapraidVerif.Filter.Rules
 import SnapraidVerif.Esc.Esc
+import SnapraidVerif.Hash.Murmur3
+import SnapraidVerif.Hash.Spooky2
 
 open SnapraidVerif SnapraidVerif.GF SnapraidVerif.Raid SnapraidVerif.Codec
 
@@ -166,6 +168,11 @@ def handle (toks : List String) : String :=
       | some t => "ok " ++ String.intercalate " " (t.map fun x => s!"{x.size}/{x.fsz}")
       | none => "fail"
     | _, _, _, _, _ => "bad-op"
+  | ["hash", kind, seed, h] =>
+    (match parseHex8 seed, (if h = "-" then some [] else parseHex8 h) with
+     | some sd, some b =>
+       if kind = "1" then hex8 (Hash.murmur3 sd b) else if kind = "2" then hex8 (Hash.spooky2 sd b) else "bad-op"
+     | _, _ => "bad-op")
   | ["esc_tag", h] =>
     (match (if h = "-" then some [] else parseHex8 h) with
      | some b => let r := Esc.escTag b; if r.isEmpty then "-" else hex8 r
